@@ -238,8 +238,10 @@ def run(ctx):
         "returns: capacity, used (open limiters), last, closed of every limiter and the waiting queue in order as "
         "limiter:amount (requests on closed limiters left out), read under the lock by go/overlay/c16_rate_dump.go and "
         "printed by the driver from RL.S; in a window the dump is part of the outcome that selects the interleaving",
-        "the driver computes the decisions of every Use twice, in Go's wrapping 64-bit ints (Model/RateLimiterInt.lean) and "
-        "on naturals, and reports a difference (C16.go_int_arithmetic_is_model_arithmetic proves there is none)",
+        "Model/RateLimiterInt.lean (the code's subtractions / additions through wrap64 on the model's naturals) is NOT run "
+        "against the code: C16.go_int_arithmetic_is_model_arithmetic is the one-step arithmetic fact that justifies naturals "
+        "in the model; the tie of the arithmetic near MaxInt is the burst stream itself (genLimits and the corpus: caps and "
+        "amounts at MaxInt, MaxInt-1, MaxInt-10, usage summing past MaxInt; answers and white-box state dump)",
     ]
     ctx.assumptions += [
         "capacities: New / Limiter.New / SetCap are given any Go int and store max(capacity, 0) (commit 4e94d2c); the "
